@@ -3,7 +3,7 @@
 //   callers <c0> <c1> ...     one controlled thread per entry, thread i performs c_i calls on the same flag
 //   throws <a> <b> ...        invocation numbers (0-based, in execution order) on which the user function throws
 //   quiet                     print only failing runs
-// modes: rand <seed> <nruns> | dfs <preemption bound> <maxruns> | replay <t,t,t,...>
+// modes: rand <seed> <nruns> | dfs <preemption bound> <maxruns> | replay <t,t,t,...> | script <tid:cond,...> (see ScriptSchedule)
 // Per run prints
 //   run <i>
 //   e <tid> <kind> <var> <a> <b> <ok>      accesses to the flag's state word (values as hi.lo: hi = 1 + owner thread of
@@ -32,6 +32,7 @@ struct once_exc { int attempt; int thrower; };
 static std::vector<int> g_calls;
 static std::set<int> g_throws;
 static bool g_quiet = false;
+static const std::uintptr_t* g_state_raw = nullptr;   // the current run's flag word (raw, for ScriptSchedule)
 
 static std::string word_str(std::uintptr_t v, const std::map<std::uintptr_t, int>& owner) {
     std::uintptr_t hi = v & ~MASK, lo = v & MASK;
@@ -45,6 +46,7 @@ static std::string word_str(std::uintptr_t v, const std::map<std::uintptr_t, int
 
 static bool run_once(verif::Schedule& sch, int run_idx, bool print) {
     tbb::collaborative_once_flag flag;
+    g_state_raw = reinterpret_cast<const std::uintptr_t*>(&flag.m_state.a);   // std::atomic<uintptr_t> is layout-compatible
     std::atomic<int> fcount{0};            // the user function's only shared access: makes the invocation a scheduling point
     size_t T = g_calls.size();
     // ---- implementation-side ghost state (plain memory: one controlled thread runs at a time) ----
@@ -122,7 +124,13 @@ static bool run_once(verif::Schedule& sch, int run_idx, bool print) {
         if (e.kind > verif::K_FXOR || !e.addr) continue;
         char buf[256];
         if (e.addr == sa) {
+            // a runner address enters the word when a caller publishes its own runner (winning CAS; any other write of a
+            // fresh aligned pointer by a thread is attributed to that thread as well)
             if (e.kind == verif::K_CAS && e.ok && e.a == 0 && e.b > 1) owner[e.b] = e.tid;
+            if ((e.kind == verif::K_STORE || e.kind == verif::K_XCHG) && (e.kind == verif::K_STORE ? e.a : e.b) > MASK) {
+                std::uintptr_t v = (e.kind == verif::K_STORE ? e.a : e.b) & ~MASK;
+                if (!owner.count(v)) owner[v] = e.tid;
+            }
             // a pointer word must designate a runner whose constructing thread is still inside its call
             auto chk = [&](std::uintptr_t v) {
                 std::uintptr_t hi = v & ~MASK;
@@ -173,6 +181,35 @@ static bool run_once(verif::Schedule& sch, int run_idx, bool print) {
     return ok;
 }
 
+
+// Directed schedules for the many-caller scenarios: a list of items "<tid>:<cond>"; the item's thread runs until
+//   C      the flag's state word differs from its value when the item started (the thread's CAS took effect)
+//   Z      the state word is 0 (uninitialized)
+//   S<k>   the thread was picked k times (k scheduling points)
+//   P      the thread is no longer enabled (parked on a spin-wait, or finished)
+// or until the thread is not enabled; after the last item: non-preemptive, lowest enabled thread.
+struct ScriptSchedule : verif::Schedule {
+    struct Item { int tid; char cond; long k; bool started = false; std::uintptr_t w0 = 0; long n = 0; };
+    std::vector<Item> items; size_t idx = 0;
+    static std::uintptr_t word() { return g_state_raw ? __atomic_load_n(g_state_raw, __ATOMIC_RELAXED) : 0; }
+    int pick(int cur, const std::vector<int>& en, size_t) override {
+        while (idx < items.size()) {
+            Item& it = items[idx];
+            bool enabled = false; for (int x : en) if (x == it.tid) enabled = true;
+            if (!it.started) { it.started = true; it.w0 = word(); it.n = 0; }
+            bool done = !enabled;
+            if (it.cond == 'C') done = done || word() != it.w0;
+            else if (it.cond == 'Z') done = done || (it.n > 0 && word() == 0);
+            else if (it.cond == 'S') done = done || it.n >= it.k;
+            if (done) { idx++; continue; }
+            it.n++;
+            return it.tid;
+        }
+        for (int x : en) if (x == cur) return cur;
+        return en[0];
+    }
+};
+
 int main(int argc, char** argv) {
     if (argc < 3) return 2;
     char line[1 << 16];
@@ -195,6 +232,16 @@ int main(int argc, char** argv) {
         verif::ReplaySchedule s; std::stringstream ss(argv[2]); std::string tok;
         while (std::getline(ss, tok, ',')) if (!tok.empty()) s.tids.push_back(atoi(tok.c_str()));
         if (!run_once(s, 0, true)) bad++; runs++;
+    }
+    else if (mode == "script") {
+        ScriptSchedule sc; std::stringstream ss(argv[2]); std::string tok;
+        while (std::getline(ss, tok, ',')) {
+            if (tok.empty()) continue;
+            size_t c = tok.find(':'); if (c == std::string::npos || c + 1 >= tok.size()) return 2;
+            ScriptSchedule::Item it; it.tid = atoi(tok.substr(0, c).c_str()); it.cond = tok[c + 1]; it.k = tok.size() > c + 2 ? atol(tok.substr(c + 2).c_str()) : 0;
+            sc.items.push_back(it);
+        }
+        if (!run_once(sc, 0, true)) bad++; runs++;
     }
     printf("summary runs=%ld bad=%ld\n", runs, bad);
     return bad ? 1 : 0;
